@@ -119,7 +119,8 @@ type Files = BTreeMap<String, Vec<u8>>;
 
 /// All read routes on one archive. Returns a description of the first disagreement.
 fn verify(cx: &mut Ctx, archive: &str, privkey: Option<&str>, files: &Files, tag: &str) -> Option<(String, String)> {
-    let k: Vec<String> = privkey.map(|p| vec![s("-k"), s(p)]).unwrap_or_default();
+    // `privkey` may name several candidate key files separated by ',' (each passed with its own -k)
+    let k: Vec<String> = privkey.map(|p| p.split(',').flat_map(|x| [s("-k"), s(x)]).collect()).unwrap_or_default();
     let fail = |kind: &str, d: String| Some((kind.to_string(), format!("[{tag}] {d}")));
     // list
     let mut a = vec![s("list"), s("-i"), s(archive)];
@@ -277,7 +278,10 @@ fn exec(j: &Job, rep: &mut Report) -> Option<(Value, String)> {
         return fail("create_fails", format!("mlar {a:?}: {:?} {}", o.status.code(), tail(&o.stderr)));
     }
     let pk = if j.lay.encrypted() { Some(reader_key.as_str()) } else { None };
-    if let Some((k, d)) = verify(&mut cx, "a.mla", pk, &files, "create") {
+    // with two recipients, the readers are given two candidate keys, a non-recipient one first
+    let multi = format!("{foreign_key},{reader_key}");
+    let vk = if j.lay.encrypted() { Some(if j.nkeys == 2 { multi.as_str() } else { reader_key.as_str() }) } else { None };
+    if let Some((k, d)) = verify(&mut cx, "a.mla", vk, &files, "create") {
         return fail(&k, d);
     }
     // other forms of the same commands: archive written to stdout, file list read from stdin, tar written
@@ -417,7 +421,7 @@ fn exec(j: &Job, rep: &mut Report) -> Option<(Value, String)> {
                 if !o.status.success() {
                     return fail("chain_fails", format!("mlar {a:?}: {:?} {}", o.status.code(), tail(&o.stderr)));
                 }
-                if let Some((k, d)) = verify(&mut cx, &outp2, pk, &files, &format!("chain-{cmd}")) {
+                if let Some((k, d)) = verify(&mut cx, &outp2, vk, &files, &format!("chain-{cmd}")) {
                     return fail(&format!("after_chain:{k}"), d);
                 }
             }
@@ -522,7 +526,7 @@ pub fn run(started: Instant) -> i32 {
         rep,
         Meta {
             level: "exploration",
-            rule: "7 generated file trees (empty files, nested directories, unicode and spaces, sizes around the chunk and block sizes, path lengths 99/100/101/156/260 bytes) x layer options {none, compress, encrypt, both (options in either order), default} x levels x key sets, with the mlar binary built from the working tree (scaled constants; plus trees with files of 128 KiB+-1 and 4 MiB+-1 on the production-constant binary). Pipeline per job: keygen; create (file list or directory recursion; also to stdout and with the file list on stdin); then list, list -vv (humansize + SHA-256), cat of every file, extract (linear and --glob '*', no extra files), extract of one name, to-tar (file and stdout; entries parsed with the tar crate); extract into the default directory; repair with --allow-unauthenticated-data; convert to each other layer/key choice and repair of the intact archive, each followed by the same readers; create|convert|repair chains; negative runs (wrong key, missing key, key for an unencrypted archive) for list/extract/cat/to-tar/convert(/repair) must exit non-zero and leave no output content. transitions = mlar invocations".to_string(),
+            rule: "7 generated file trees (empty files, nested directories, unicode and spaces, sizes around the chunk and block sizes, path lengths 99/100/101/156/260 bytes) x layer options {none, compress, encrypt, both (options in either order), default} x levels x key sets (1 or 2 recipients, read with either; with 2 recipients the readers get two candidate keys, a non-recipient first), with the mlar binary built from the working tree (scaled constants; plus trees with files of 128 KiB+-1 and 4 MiB+-1 on the production-constant binary). Pipeline per job: keygen; create (file list or directory recursion; also to stdout and with the file list on stdin); then list, list -vv (humansize + SHA-256), cat of every file, extract (linear and --glob '*', no extra files), extract of one name, to-tar (file and stdout; entries parsed with the tar crate); extract into the default directory; repair with --allow-unauthenticated-data; convert to each other layer/key choice and repair of the intact archive, each followed by the same readers; create|convert|repair chains; negative runs (wrong key, missing key, key for an unencrypted archive) for list/extract/cat/to-tar/convert(/repair) must exit non-zero and leave no output content. transitions = mlar invocations".to_string(),
             exhaustive: true,
             bounds: json!({"jobs": js.len()}),
             assumptions: vec!["human-readable sizes are formatted with the same humansize crate as the tool".to_string()],
